@@ -18,7 +18,7 @@ use value::Flags;
 fn main() {
     let ctx = Ctx::from_args();
     install_panic_hook();
-    watchdog_start(20);
+    watchdog_start(60);
     if let Some(p) = &ctx.replay {
         let Ok(s) = std::fs::read_to_string(p) else {
             println!("MACHINERY-FAILURE: cannot read {}", p.display());
@@ -89,7 +89,7 @@ fn main() {
             rep.distinct_nontrivial = rep.traces;
             rep.sample(json!({"number":1007,"level":1,"deviation":{"path":"Msg1007.antenna_descriptor_str","value":"31 x U+00E9"},"oracle":"from_vtree(to_vtree(m)) == m and serde_json::from_value(to_value(m)) == m"}));
             (rep, Meta {
-                rule: "every NaN-free Message value of the E-value exploration (bases decoded from frames + 1 (thorough: 2) deviations incl. strings at capacity with non-ASCII Latin-1 / multi-byte characters, lists at capacity, None/Some on every optional) is serialised to the VTree data model and back, and (finite values) to serde_json::Value and back; both must give an equal message. traces_validated = round trips compared".into(),
+                rule: "every NaN-free Message value of the E-value exploration (bases decoded from frames + 1 (thorough: 2) deviations incl. strings at capacity with non-ASCII Latin-1 / multi-byte characters, lists at capacity, None/Some on every optional) is serialised to the VTree data model and back (once announcing itself as human readable, once as not), and (finite values) to serde_json::Value and back; all must give an equal message. traces_validated = round trips compared".into(),
                 exhaustive: false,
                 bounds: json!({"deviation_bound": bound}),
                 assumptions: vec!["serde_json::Value cannot represent non-finite floats; those values are checked through the VTree model only".into()],
